@@ -846,6 +846,33 @@ def run(chk):
     if len(trs) < 3:
         raise core.AnalysisBroken("apply_multipliers: %d element-wise products found (3 expected)" % len(trs))
 
+    # ---- C12.records: every record of an operation keyword is processed
+    r_rc = chk.rule("C12.records", "the FieldProps handlers that walk the records of a keyword (handle_operation, handle_region_operation, handle_OPERATE, handle_operateR, handle_COPY, handle_schedule_keywords) leave the record loop only by finishing it or by throwing: a record that does not apply (unsupported array, region without active cells) is skipped with `continue`, never with `return` or `break`, which would silently drop every later record of the same keyword", floor=5)
+    from verif.tree import children as _children_rc
+    for f in fns:
+        if not f["file"].endswith("FieldProps.cpp"):
+            continue
+        kwp = [p_["n"] for p_ in f["params"] if "DeckKeyword" in (p_.get("t") or "")]
+        for lp in walk(f["body"]):
+            if not (lp["k"] == "ForRange" and kwp and show(strip(lp["range"])) in kwp):
+                continue
+            exits = []
+
+            def rec(n, inner):
+                if n.get("k") == "Lambda":
+                    return
+                if n.get("k") == "Return":
+                    exits.append(("return", n["l"]))
+                if n.get("k") == "Break" and not inner:
+                    exits.append(("break", n["l"]))
+                for c in _children_rc(n):
+                    rec(c, inner or n.get("k") in ("For", "ForRange", "While", "Do", "Switch"))
+            rec(lp["body"], False)
+            key = "%s@%d" % (f["n"], lp["l"])
+            chk.instance(r_rc, key, sample=dict(function=f["q"], record_loop_line=lp["l"], early_exits=exits))
+            for kind, ln in exits:
+                chk.violation(r_rc, "%s:%s" % (f["n"], kind), "%s leaves its record loop with `%s` at line %d: the records after this one are never applied, so the arrays no longer equal the keyword's operations applied in input order (and whether that happens can depend on which cells are inactive)" % (f["q"], kind, ln), f["file"], ln)
+
     # ---- C12.lostcopy: an update written into a local copy of the storage it is meant for
     r_lc = chk.rule("C12.lostcopy", "in the cell-property code a local variable that is a by-value copy of storage outliving the function (a member of *this or of a reference parameter, possibly through * or .value()) is not used only as the target of element assignments / mutating calls: such writes end with the function and the array they were meant for keeps its old content (a reference binding - auto& - is what the sibling variables use)", floor=1)
     from verif.tree import children as _children
